@@ -10,10 +10,10 @@ import (
 
 func init() {
 	register("C02", &propSpec{
-		technique: "static analysis: module call-graph who-may-open check, SSA typestate (open → IsHidden-false edge → sink), guard-edge dominance for redirects",
+		technique: "static analysis: module call-graph who-may-open check, SSA typestate (open → IsHidden-false edge → sink), guard-edge dominance for redirects; decision table of FileServer.serveFile against a modelled file system (hidden files, abstract evaluation E10)",
 		run:       runC02,
 		decided: "R1 the file-serving handlers reach the disk only through the jailed http.FileSystem (no os/ioutil/filepath file access reachable from their ServeHTTP without going through Next), and every FileServer is rooted at http.Dir; " +
-			"R2 every file that can reach a content sink (ServeContent or any other call given the opened file, a listing entry, an archive member) is tested with IsHidden on its own FileInfo and the sink lies on the not-hidden edge; " +
+			"R2 every file that can reach a content sink (ServeContent or any other call given the opened file, a listing entry, an archive member) is tested with IsHidden on its own FileInfo and the sink lies on the not-hidden edge, and the file server's decision table (serveFile evaluated against a modelled file system: hidden file, offered codings, existing and hidden siblings) never hands a hidden file to ServeContent; " +
 			"R3 every redirect issued by these handlers targets a copy of the request URL whose path had leading '//' stripped; " +
 			"R4 the Casketfile is added to the hidden list by a parsing callback registered on the root directive.",
 		notDecided: "correctness of http.Dir's own path cleaning (stdlib, trusted); symlinks leaving the root; os.SameFile semantics; that only regular files are served.",
